@@ -66,7 +66,8 @@ CrossVerdict(r) ==
          ELSE IF r.err = "none" /\ prev.consumed >= 0 /\ r.consumed >= 0 /\ prev.consumed # r.consumed THEN "cross.consumed"
          ELSE "ok")
     ELSE IF r.ev = "rt" THEN
-        (IF prev.err # r.err \/ prev.err2 # r.err2 THEN "cross.rc"
+        (IF (prev.err = "none") # (r.err = "none") \/ (prev.err2 = "none") # (r.err2 = "none") THEN "cross.rc"
+         ELSE IF prev.kinds /\ r.kinds /\ (prev.err # r.err \/ prev.err2 # r.err2) THEN "cross.rc"
          ELSE IF prev.bytes2 # r.bytes2 /\ prev.L = r.L THEN "cross.bytes" ELSE "ok")
     ELSE "ok"
 
@@ -80,7 +81,7 @@ WithDet(r) == IF r.ev = "ser" THEN [ev |-> r.ev, case |-> r.case, err |-> r.err,
                                     det |-> Ser(r.t, r.v, BitsOfBytes(r.bytes)).det]
               ELSE IF r.ev = "des" THEN [ev |-> r.ev, case |-> r.case, err |-> r.err, kinds |-> r.kinds, L |-> r.L, val |-> r.val,
                                          consumed |-> r.consumed, t |-> r.t]
-              ELSE IF r.ev = "rt" THEN [ev |-> r.ev, case |-> r.case, err |-> r.err, err2 |-> r.err2, bytes2 |-> r.bytes2, L |-> r.L]
+              ELSE IF r.ev = "rt" THEN [ev |-> r.ev, case |-> r.case, err |-> r.err, err2 |-> r.err2, bytes2 |-> r.bytes2, L |-> r.L, kinds |-> r.kinds]
               ELSE [ev |-> r.ev, case |-> r.case]
 
 TInit == l = 1 /\ prev = NoPrev
